@@ -97,7 +97,7 @@ def nonedit(rng):
     return motion(rng) + motion(rng)
 
 
-TYPED = ["X", "ab", "new text", "é", " ", "x y", "(", "日本", "a\rb", "foo<BS>", "w1 w2<c-w>"]
+TYPED = ["X", "ab", "new text", "é", " ", "x y", "(", "日本", "a😀b", "𠀀", "a\rb", "foo<BS>", "w1 w2<c-w>"]
 
 
 def edit(rng):
